@@ -1,4 +1,4 @@
 --------------------------- MODULE CsvStoreDump ---------------------------
 EXTENDS CsvStore, Json
-Dump == (last.op = "read") => PrintT(ToJson([hist |-> hist, res |-> last.res, incontract |-> (Len(hist) >= 2 /\ hist[Len(hist) - 1][1] = "write" /\ hist[Len(hist) - 1][2] = hist[Len(hist)][2] /\ hist[Len(hist) - 1][3] = hist[Len(hist)][3] /\ \A k \in 1..(Len(hist) - 2) : hist[k][1] = "write" => (hist[k][2].dir # hist[Len(hist)][2].dir \/ hist[k][2].stem # hist[Len(hist)][2].stem))]))
+Dump == (last.op = "read") => PrintT(ToJson([hist |-> hist, res |-> last.res, incontract |-> (Len(hist) >= 2 /\ hist[Len(hist) - 1][1] = "write" /\ hist[Len(hist) - 1][2] = hist[Len(hist)][2] /\ hist[Len(hist) - 1][3] = hist[Len(hist)][3] /\ FreshIn(SubSeq(hist, 1, Len(hist) - 2), hist[Len(hist)][2], hist[Len(hist)][3]))]))
 ============================================================================
